@@ -146,7 +146,7 @@ func writersUnits(prop, tier string) []eng.Unit {
 	var scs []scenario
 	for _, ws := range writersScenarios() {
 		b := 2
-		if len(ws.threads) == 2 {
+		if len(ws.threads) == 2 && !ws.snap {
 			b = 3
 		}
 		if tier != "quick" {
